@@ -38,6 +38,47 @@ Proof.
   split; [assumption|]. split; [assumption|]. apply H3. constructor.
 Qed.
 
+(* ---- order of upload and registration ------------------------------------------------------- *)
+Lemma writer_go_f_indexed_written hash clock packs fail_at : forall k st,
+  incl (map w_id (snd st)) (map fst (fst st)) ->
+  let r := writer_go_f true hash clock k st packs fail_at in
+  incl (map w_id (snd r)) (map fst (fst r)).
+Proof.
+  induction packs as [|p packs IH]; intros k st Hst; cbn [writer_go_f]; [exact Hst|].
+  destruct (match fail_at with Some n => Nat.eqb n k | None => false end); [exact Hst|].
+  apply IH. cbn [fst snd]. rewrite !map_app. cbn [map fst w_id].
+  apply incl_app; [apply incl_appl; exact Hst|apply incl_appr, incl_refl].
+Qed.
+
+(* every pack registered with the indexer (hence every pack a persisted index file can list) was
+   stored before - for every upload failure point.  Uses the order found in the source. *)
+Lemma indexed_pack_is_written_lemma hash clock packs fail_at :
+  let r := writer_run_src hash clock packs fail_at in
+  incl (map w_id (snd r)) (map fst (fst r)).
+Proof.
+  unfold writer_run_src, writer_run_f.
+  change WRITER_INDEXES_AFTER_WRITE with true.
+  apply writer_go_f_indexed_written. cbn. apply incl_refl.
+Qed.
+
+(* without failure the source order does not matter: same result as writer_run *)
+Lemma writer_run_f_no_failure iaw hash clock packs : forall k st,
+  writer_go_f iaw hash clock k st packs None = writer_go hash clock k st packs.
+Proof.
+  induction packs as [|p packs IH]; intros k st; cbn [writer_go_f writer_go]; [reflexivity|].
+  rewrite IH. reflexivity.
+Qed.
+
+(* registering before the upload: one rejected upload leaves a listed pack that was never stored *)
+Lemma index_before_write_refuted_lemma :
+  exists hash clock packs fail_at,
+    let r := writer_run_f false hash clock packs fail_at in
+    ~ incl (map w_id (snd r)) (map fst (fst r)).
+Proof.
+  exists (fun f => f), (fun _ => 0%Z), [([1], [])], (Some 0%nat). cbn. intro H.
+  destruct (H [1] (or_introl eq_refl)).
+Qed.
+
 Section WithCrypto.
 Variables (enc : bytes -> bytes) (dec : bytes -> option bytes).
 Hypothesis dec_enc : forall x, dec (enc x) = Some x.
